@@ -40,6 +40,24 @@ func app(sort Sort, op string, args ...Term) Term {
 	return Term{sb.String(), sort}
 }
 
+// addT builds a + b with constant folding, so that index terms stay in the shape quantifier
+// patterns can match (select row i rather than select row (+ 0 i)).
+func addT(a, b Term) Term {
+	if a.S == "0" {
+		return b
+	}
+	if b.S == "0" {
+		return a
+	}
+	var x, y int64
+	if _, err := fmt.Sscanf(a.S, "%d", &x); err == nil && fmt.Sprintf("%d", x) == a.S {
+		if _, err := fmt.Sscanf(b.S, "%d", &y); err == nil && fmt.Sprintf("%d", y) == b.S {
+			return intLit(x + y)
+		}
+	}
+	return app(SInt, "+", a, b)
+}
+
 func intLit(n int64) Term {
 	if n < 0 {
 		return Term{fmt.Sprintf("(- %d)", -n), SInt}
@@ -356,4 +374,7 @@ func quoteSym(s string) string {
 
 const smtPrelude = `(declare-datatypes ((Slice 0)) (((mkslice (sarr Int) (soff Int) (slen Int) (scap Int)))))
 (declare-datatypes ((Iface 0)) (((mkiface (itag Int) (ival Int)))))
+(declare-fun sk (String) Int)
+(declare-fun ks (Int) String)
+(assert (forall ((s String)) (! (= (ks (sk s)) s) :pattern ((sk s)))))
 `
